@@ -64,6 +64,15 @@ JudgeRT2(rec) ==
                 (SameField(desc[k], rec.decoded[desc[k].name], B[desc[k].name]) \/ SameField(desc[k], rec.decoded[desc[k].name], A[desc[k].name])),
             "a field absent from the second document holds neither the earlier nor the empty value">> >>)
 
+JudgeRTSlice(rec) ==
+    LET desc == Table(rec.in.type)  vals == rec.in.values IN
+    Guarded("slice-of-structs",
+       << <<~rec.panic, "encoding / decoding a sequence of values panicked">>,
+          <<rec.ok, "a sequence of supported values could not be encoded into one document and decoded into a slice">> >>,
+       << <<Len(rec.decoded) = Len(vals), "a document of n paragraphs does not decode into n slice elements">>,
+          <<Len(rec.decoded) = Len(vals) => \A k \in 1..Len(vals) : SameValue(desc, rec.decoded[k], vals[k]),
+            "an element of a slice decoded from a multi-paragraph document differs from the value that was written (a field its paragraph omits must be zero)">> >>)
+
 JudgePass(rec) ==
     LET desc == Table("P5")
         r == RefRead(rec.in.doc)
@@ -85,6 +94,7 @@ Judge(rec) ==
     CASE rec.ev = "desc" -> JudgeDesc(rec)
       [] rec.ev = "rt" -> JudgeRT(rec)
       [] rec.ev = "rt2" -> JudgeRT2(rec)
+      [] rec.ev = "rt_slice" -> JudgeRTSlice(rec)
       [] rec.ev = "passthru" -> JudgePass(rec)
       [] rec.ev = "missing" -> JudgeMissing(rec)
       [] OTHER -> V(FALSE, "unknown-event", "unknown event")
